@@ -42,7 +42,9 @@ ExactInOK(C, zfo, ain, aout, amt) ==
         k  == Slack(W.nb)
         a2 == B!Sub(ain, k)
     IN  /\ B!Le(ain, amt) /\ ain.s > 0 /\ aout.s > 0
-        /\ W.ok
+        \* the ideal places the whole charged amount, except for at most k units of per-bucket round-up
+        \* that find no liquidity any more (the swap consumed the last bucket exactly)
+        /\ (W.ok \/ RLe(W.left, RInt(k)))
         /\ RLe(RInt(aout), W.out)                                   \* never pays more than the curve
         /\ \/ a2.s <= 0
            \/ LET W2 == IdealIn(C, zfo, RInt(a2))
@@ -53,7 +55,7 @@ ExactOutOK(C, zfo, ain, aout, amt) ==
         k  == Slack(V.nb)
         V2 == IdealOut(C, zfo, RInt(B!Add(aout, k)))
     IN  /\ B!Le(aout, amt) /\ ain.s > 0 /\ aout.s > 0
-        /\ V.ok
+        /\ (V.ok \/ RLe(V.left, RInt(k)))
         /\ RLe(V.in, RInt(ain))                                     \* never charges less than the curve
         /\ \/ ~V2.ok \/ RPos(V2.left)                               \* perturbed output not deliverable: no bound
            \/ B!Le(ain, B!Add(RCeil(V2.in), k))                     \* bounded rounding
